@@ -1,6 +1,7 @@
 """C02 - tampered encrypted traffic is never accepted as different data.
 
 (+ dimension 'key epochs': two-epoch streams on one sender/receiver pair, edits that cross the key switch, see META)
+(+ dimension 'initial IV': streams whose derived initial IV / invocation counter sits on a boundary value, see META)
 
 enum faults: a 3-message encrypted stream is recorded from a real sender Transport per suite, then
 replayed to a freshly keyed real receiver after every single-point edit (every byte position x
@@ -43,6 +44,17 @@ META = {
             "truncate}, both stream ends, reader keeps reading; quick: each of the 14 class representatives re-keyed to "
             "itself (both directions) and to the representative 3 further on (client->server) = 84 streams, thorough: all "
             "144 suites re-keyed to themselves (both directions) and every ordered pair of representatives = 940 streams. "
+            "New dimension 'initial IV' - boundary values of the initial IV the key derivation hands to the packet layer "
+            "(for AES-GCM its last 8 bytes are the invocation counter paramiko itself steps per packet): the sender sends up "
+            "to 6 messages (5, 40, 17, 40, 9, 23 bytes; it may stop early by raising, then the stream is what reached the "
+            "wire) under an IV = F x (length - 8) || C with F in {00, ff} and C in {0, 2^32-2, 2^64-4, 2^64-2, 2^64-1}, so "
+            "the counter carries into its upper half / runs over the end of its 64 bits in the middle of the stream; every "
+            "byte position x {xor 0x01, xor 0x80, xor 0xff, delete, insert, truncate}, every swap / drop / replay position, "
+            "every packet overwritten by a copy of every other one, both stream ends, reader keeps reading; quick: both "
+            "AES-GCM representatives with all 10 IVs client->server and the 5 ff-prefixed ones server->client, and one "
+            "CTR, one CBC, one 3DES-CBC and one EtM representative client->server with the all-zero, all-ff and "
+            "ff..fffc IVs = 42 streams; thorough: every cipher with hmac-sha2-256 and its EtM variant, with and without "
+            "zlib, both directions, all 10 IVs, plus the quick ones = 726 streams. "
             "The receiver must deliver only an unmodified prefix of the sent "
             "messages - no message decoded from bytes at or after the first changed byte - then raise or wait.",
     "note": "bounded adversary: one edit (two bit flips in thorough) per stream; cryptographic strength (forgery) is not "
@@ -128,6 +140,130 @@ def make_epoch_script(suite, suite2, strict):
         out.append(("switch",) + tuple(su) + (bool(strict),))
         out += [("msg", n, False, EPOCH_PTYPES[e][i], 40 + 10 * e + i) for i, n in enumerate(lens)]
     return out
+
+
+# dimension "initial IV": the IV the key derivation hands to the packet layer is an arbitrary bit string; for AES-GCM its
+# last 8 bytes are the invocation counter that Packetizer steps itself after every packet (RFC 5647 7.1).  The streams
+# below start from boundary values: IV = F x (length - 8) || C.  Everything else goes through the real activation; only
+# the answer of Transport._compute_key for the two IV letters ('A' client->server, 'B' server->client) is replaced.
+from paramiko.transport import Transport as _Transport    # noqa: E402  (vmc.pktseam has set up the import path)
+
+IV_LENGTHS = (5, 40, 17, 40, 9, 23)
+IV_PTYPES = (94, 98, 2, 94, 98, 94)
+IV_FIXED = ("00", "ff")
+IV_COUNTERS = (("0", 0), ("2^32-2", 2 ** 32 - 2), ("2^64-4", 2 ** 64 - 4), ("2^64-2", 2 ** 64 - 2),
+               ("2^64-1", 2 ** 64 - 1))
+IV_SPECS = tuple((f, c) for f in IV_FIXED for c, _v in IV_COUNTERS)
+# quick: AES-GCM (paramiko steps the counter itself) gets every boundary value client->server and the ff-prefixed ones
+# server->client; the other framings (IV handed to the cipher library once) get all-zero, all-ff and nearly-all-ff IVs
+IV_OTHER_SPECS = (("00", "0"), ("ff", "2^64-4"), ("ff", "2^64-1"))
+IV_QUICK = tuple((s, "c2s", spec) for s in (QUICK_SUITES[11], QUICK_SUITES[12]) for spec in IV_SPECS) + \
+    tuple((s, "s2c", spec) for s in (QUICK_SUITES[11], QUICK_SUITES[12]) for spec in IV_SPECS if spec[0] == "ff") + \
+    tuple((QUICK_SUITES[i], "c2s", spec) for i in (0, 5, 7, 8) for spec in IV_OTHER_SPECS)
+IV_BROKEN = "initial_iv_streams_not_delivered_unedited"
+
+
+def iv_bytes(spec, nbytes):
+    fixed, counter = spec
+    c = dict(IV_COUNTERS)[counter].to_bytes(8, "big")
+    return (bytes.fromhex(fixed) * max(0, nbytes - 8) + c)[-nbytes:]
+
+
+_IV_CLASSES = {}
+
+
+def iv_transport(spec):
+    """Transport whose key derivation answers the IV letters with the boundary value `spec` (keys: paramiko's own)."""
+    if spec not in _IV_CLASSES:
+        class ChosenIV(_Transport):
+            def _compute_key(self, id, nbytes):
+                out = _Transport._compute_key(self, id, nbytes)
+                return iv_bytes(spec, nbytes) if id in ("A", "B") else out
+        _IV_CLASSES[spec] = ChosenIV
+    return _IV_CLASSES[spec]
+
+
+def record_iv(direction, suite, spec):
+    """Sender half of an 'initial IV' stream.  The sender may refuse to go on (raise) once its counter is used up:
+    the sent sequence is what reached the wire.  Returns (script, newkeys, packets, sent, why the sender stopped)."""
+    link = P.Link(direction, iv_transport(spec))
+    items = [("msg", n, False, IV_PTYPES[i], 60 + i) for i, n in enumerate(IV_LENGTHS)]
+    link.tx_switch(tuple(suite), strict=False)
+    sent, stopped = [], None
+    for it in items:
+        data = P.payload(it[1], it[4], it[2], it[3])
+        before = link.q.send_calls
+        try:
+            link.send(data)
+        except Exception as e:  # noqa: BLE001 - a sender that stops is within the statement
+            stopped = e
+            if link.q.send_calls == before:
+                break
+        sent.append(data)
+        if stopped is not None:
+            break
+    chunks = link.q.take_chunks()
+    if len(chunks) != 1 + len(sent):
+        raise AssertionError("seam: %d socket writes for %d packets" % (len(chunks), 1 + len(sent)))
+    script = [("switch",) + tuple(suite) + (False,)] + items[:len(sent)]
+    return script, chunks[0], chunks[1:], sent, stopped
+
+
+def iv_case(direction, suite, spec):
+    script, newkeys, packets, sent, stopped = record_iv(direction, suite, spec)
+    enc = b"".join(packets)
+    edits = [(lab, (pos,), data) for lab, pos, data in E.byte_edits(enc)]
+    edits += list(packet_edits(packets))
+    edits += [e for e in epoch_edits(packets, 0) if e[0] == "replace"]
+    return script, newkeys, packets, sent, stopped, edits
+
+
+def do_iv(item, acc):
+    """Dimension 'initial IV': the edit menu on streams whose initial IV / invocation counter is a boundary value."""
+    _, tier, suite, direction, spec = item
+    tclass = iv_transport(spec)
+    script, newkeys, packets, sent, stopped, edits = iv_case(direction, suite, spec)
+    acc.count("initial_iv_streams")
+    acc.count("initial_iv_messages_sent_%d" % len(sent))
+    if stopped is not None:
+        acc.count("initial_iv_sender_stopped:" + type(stopped).__name__)
+    if not packets:
+        acc.ev()
+        acc.nt(("iv", suite, direction, spec, "sender sent nothing"))
+        return
+    enc = b"".join(packets)
+    r0 = run_edit(direction, script, newkeys, sent, enc, tclass=tclass)
+    r1 = run_edit(direction, script, newkeys, sent, enc, "eof", tclass=tclass)
+    if not (r0.got == sent[:len(r0.got)] and r1.got == sent[:len(r1.got)]):
+        pass          # the unedited stream already delivers something else: let the edits below show it (never silent)
+    elif r0.got != sent or r1.got != sent:
+        # delivering less than was sent is no violation of this statement (C01 judges loss); nothing to say about edits
+        acc.count(IV_BROKEN)
+        acc.note("seam: unedited initial-IV stream not delivered for %r %s iv=%r: %s"
+                 % (suite, direction, spec, outcome_of(r0) if (r0.waits or r0.error) else "none"))
+        return
+    off, regions = 0, []
+    for i, pk in enumerate(packets):
+        regions.append((off, off + len(pk), "p%d:packet" % i))
+        off += len(pk)
+    run_edits(acc, direction, suite, None, suite_class(suite), script, newkeys, packets, sent, regions, edits, ENDS,
+              iv=spec)
+    acc.cmax("max_stream_len", len(enc))
+    if suite == QUICK_SUITES[11] and direction == "c2s" and spec == ("ff", "2^64-4"):
+        acc.sample({"part": "initial IV", "suite": suite, "dir": direction, "iv": iv_bytes(spec, 12).hex(),
+                    "messages_sent": len(sent), "sender_stopped": repr(stopped) if stopped else None,
+                    "packet_wire_lengths": [len(p) for p in packets], "edits": len(edits)})
+
+
+def iv_items(tier):
+    if tier == "quick":
+        cases = IV_QUICK
+    else:
+        suites = [(c, m, z) for c in P.CIPHERS for m in ("hmac-sha2-256", "hmac-sha2-256-etm@openssh.com")
+                  for z in P.COMPRESSIONS]
+        cases = tuple((s, d, spec) for s in suites for d in ("c2s", "s2c") for spec in IV_SPECS)
+        cases += tuple(x for x in IV_QUICK if x not in cases)
+    return [("iv", tier, s, d, spec) for s, d, spec in cases]
 
 
 def record_script(direction, script):
@@ -282,13 +418,13 @@ NEWKEYS_MSG = bytes([P.MSG_NEWKEYS])
 KEEP_READING = 8           # dimension "reader keeps reading": read_message calls made after the first rejection
 
 
-def receive_keep(direction, script, stream, extra_reads=2, eof=False, keep=KEEP_READING):
+def receive_keep(direction, script, stream, extra_reads=2, eof=False, keep=KEEP_READING, tclass=None):
     """P.receive (whole reads) plus the dimension 'reader keeps reading after a rejection': when read_message has
     raised on the edited stream (anything but end-of-file), the same receiver is asked again up to `keep` times, until
     the byte queue runs dry or reports end-of-file.  Up to the first failure the result is exactly P.receive's;
     `after` = messages delivered by the later calls, `rejections` = read_message calls that raised, `after_end` = how
     the continued reading ended (waits | eof | cap)."""
-    link = P.Link(direction)
+    link = P.Link(direction) if tclass is None else P.Link(direction, tclass)
     q = link.q
     q.feed(stream)
     q.eof = eof
@@ -359,14 +495,15 @@ def judge_after(sent, r, script=None):
     return None
 
 
-def run_edit(direction, script, newkeys, sent, edited, end="waits"):
-    return receive_keep(direction, script, newkeys + edited, extra_reads=2, eof=(end == "eof"))
+def run_edit(direction, script, newkeys, sent, edited, end="waits", tclass=None):
+    return receive_keep(direction, script, newkeys + edited, extra_reads=2, eof=(end == "eof"), tclass=tclass)
 
 
 def run_edits(acc, direction, suite, suite2, cls, script, newkeys, packets, sent, regions, edits, ends, large=False,
-              strict=None):
-    """strict: None = stream of the single-switch / old re-key scripts; False | True = two-epoch stream (dimension 'key
+              strict=None, iv=None):
+    """iv: None = IV as derived; (fixed, counter) = stream of the dimension 'initial IV'.  strict: None = stream of the single-switch / old re-key scripts; False | True = two-epoch stream (dimension 'key
     epochs') whose sequence numbers run on | restart at every NEWKEYS."""
+    tclass = iv_transport(iv) if iv is not None else None
     enc = b"".join(packets)
     e2 = None              # two-epoch streams: offset of the first byte protected by the second key set
     if suite2 is not None:
@@ -379,7 +516,7 @@ def run_edits(acc, direction, suite, suite2, cls, script, newkeys, packets, sent
         n_intact, lcp = intact_packets(packets, edited)
         region = region_at(regions, lcp) if lab not in PACKET_EDITS else "packet"
         for end in ends:
-            r = run_edit(direction, script, newkeys, sent, edited, end)
+            r = run_edit(direction, script, newkeys, sent, edited, end, tclass=tclass)
             acc.ev()
             clause = judge(sent, r, n_intact)
             if clause == "accepted-tampered-packet" and not STRICT_TAMPERED_PACKET:
@@ -404,6 +541,11 @@ def run_edits(acc, direction, suite, suite2, cls, script, newkeys, packets, sent
                     dims["epochs"] = "one" if suite2 is None else "two"
                 if strict is not None:
                     dims["strict"] = bool(strict)
+                if iv is not None and cls == "gcm":
+                    # only AES-GCM streams of the dimension 'initial IV' carry these two (both tiers enumerate all 10
+                    # values for them, so keys are the same in quick and thorough); for the other framings the IV is
+                    # in the violation detail / replay record only
+                    dims["iv_fixed"], dims["iv_counter"] = iv
                 rep = {"suite": list(suite), "suite2": list(suite2) if suite2 else None, "dir": direction,
                        "edit": lab, "pos": list(pos), "end": end}
                 if large:
@@ -411,9 +553,12 @@ def run_edits(acc, direction, suite, suite2, cls, script, newkeys, packets, sent
                 if strict is not None:
                     rep["epochs"] = True
                     rep["strict"] = bool(strict)
+                if iv is not None:
+                    rep["iv"] = list(iv)
                 P.sig_violation(acc, clause, dims, {"suite": suite, "dir": direction, "edit": lab, "pos": list(pos), "region": region,
                                     "stream_end": end, "first_changed_byte": lcp, "intact_packets": n_intact,
                                     "suite_after_rekey": suite2, "strict_kex": strict,
+                                    "initial_iv": list(iv) if iv else "derived",
                                     "message_lengths": [len(x) for x in sent],
                                     "offset_in_large_packet": offset_class(lcp - len(packets[0])) if large else None,
                                     "delivered": [g[:24] for g in r.got], "sent": [x[:24] for x in sent],
@@ -424,6 +569,10 @@ def run_edits(acc, direction, suite, suite2, cls, script, newkeys, packets, sent
                 acc.nt(("large", suite, EDIT_CLASS[lab], region, (lcp - len(packets[0])) // 4096, r.done - 1, end,
                         r.after_end))
                 acc.count("large_packet_edits")
+                acc.count("outcome:" + outcome_of(r))
+            elif iv is not None:
+                acc.nt(("iv", suite, iv, len(sent), EDIT_CLASS[lab], r.done - 1, end, r.after_end))
+                acc.count("initial_iv_edits")
                 acc.count("outcome:" + outcome_of(r))
             elif strict is not None:
                 acc.nt(("epochs", suite, suite2, strict, EDIT_CLASS[lab], region, r.done - 1, end, r.after_end))
@@ -518,7 +667,7 @@ def do_epochs(item, acc):
 
 
 def run_item(item, acc):
-    {"suite": do_suite, "large": do_large, "epochs": do_epochs}[item[0]](item, acc)
+    {"suite": do_suite, "large": do_large, "epochs": do_epochs, "iv": do_iv}[item[0]](item, acc)
 
 
 def do_suite(item, acc):
@@ -566,10 +715,12 @@ def epoch_items(tier):
 def items_for(tier):
     if tier == "quick":
         return [("large", tier, s, d) for s in QUICK_SUITES for d in ("c2s", "s2c")] + epoch_items(tier) + \
+               iv_items(tier) + \
                [("suite", tier, s, "c2s") for s in P.all_suites()] + \
                [("suite", tier, s, "s2c") for s in QUICK_SUITES]
     items = [("large", tier, s, d) for s in P.all_suites() for d in ("c2s", "s2c")]
     items += epoch_items(tier)
+    items += iv_items(tier)
     items += [("suite", tier, s, d) for s in P.all_suites() for d in ("c2s", "s2c")]
     reps = QUICK_SUITES[0:1] + QUICK_SUITES[6:14]
     items += [("suite", tier, a, "c2s", b) for a in reps for b in reps]      # streams crossing a re-key
@@ -587,12 +738,17 @@ def main(tier):
         "really changed the stream and for which the oracle held; large-packet streams add the 4 KiB bucket of the "
         "first changed byte inside the 35000-byte packet; key-epoch streams (two key switches on the same sender / "
         "receiver objects, edits crossing the switch) add the suite after the re-key and whether sequence numbers "
-        "restart at NEWKEYS",
+        "restart at NEWKEYS; initial-IV streams (IV on a boundary value) add the IV's fixed part and counter value and "
+        "how many messages the sender got out before it stopped",
         ["receiver keyed like the sender from fixed K/H/session id; sender side is paramiko (recorded once per suite)",
          "key epochs: both ends switch keys through the real _activate_outbound/_activate_inbound on the same Transport "
          "and Packetizer objects, each switch with its own K and H and the session id kept; the sender's NEWKEYS "
          "messages count as part of the sent sequence for a reader that keeps reading; packet-level edits of these "
          "streams include overwriting one packet by a copy of another (a drop and a replay at the same place)",
+         "initial IV: the key switch goes through the real _activate_outbound/_activate_inbound of a Transport subclass "
+         "whose _compute_key answers the two IV letters ('A', 'B') with the chosen boundary value (searching K values "
+         "whose derived IV has the wanted bytes is infeasible); cipher and MAC keys are paramiko's own derivation; a "
+         "sender that raises instead of sending once its counter is used up has sent what reached the wire",
          "adversary bounded to one edit per stream (thorough: also two bit flips), each followed by either silence or a "
          "closed connection; recv() otherwise returns exactly what is asked",
          "a caller that keeps calling read_message after it raised makes at most %d further calls; a packet that "
@@ -604,10 +760,11 @@ def main(tier):
     ck.merge(core.pmap(items, run_item))
     P.regroup(ck, {"framing": {"classic-ctr", "classic-cbc", "etm-ctr", "etm-cbc", "gcm"},
                    "mac": set(P.MACS), "zlib": {True, False}, "epochs": {"one", "two"}, "strict": {True, False},
-                   "edit": set(EDIT_CLASS.values()) - {"flip2"}, "end": set(ENDS), "packet": {"small", "large"}})
-    if ck.acc.counters.get(SEAM_BROKEN) and not ck.acc.violations:
-        raise AssertionError("seam: %d unedited two-epoch streams were not delivered: %s"
-                             % (ck.acc.counters[SEAM_BROKEN], sorted(ck.acc.notes)[:3]))
+                   "edit": set(EDIT_CLASS.values()) - {"flip2"}, "end": set(ENDS), "packet": {"small", "large"},
+                   "iv_fixed": set(IV_FIXED), "iv_counter": set(c for c, _v in IV_COUNTERS)})
+    for broken in (SEAM_BROKEN, IV_BROKEN):
+        if ck.acc.counters.get(broken) and not ck.acc.violations:
+            raise AssertionError("seam: %s = %d: %s" % (broken, ck.acc.counters[broken], sorted(ck.acc.notes)[:3]))
     ck.extra["bound"] = {"suites": len(set(i[2] for i in items)), "work_items": len(items),
                          "read_calls_after_a_rejection": KEEP_READING,
                          "message_lengths": list(LENGTHS), "double_faults": tier != "quick",
@@ -616,6 +773,9 @@ def main(tier):
                                         "streams_suite_changes": len([i for i in items if i[0] == "epochs"
                                                                       and i[2] != i[4]]),
                                         "sequence_numbers": ["run on", "restart at NEWKEYS (strict kex)"]},
+                         "initial_iv": {"message_lengths": list(IV_LENGTHS), "fixed_part_bytes": list(IV_FIXED),
+                                        "counter_values": [c for c, _v in IV_COUNTERS],
+                                        "streams": len([i for i in items if i[0] == "iv"])},
                          "large_packet": {"message_lengths": list(LARGE_LENGTHS),
                                           "streams": len([i for i in items if i[0] == "large"]),
                                           "flip_stride": LARGE_STRIDE["quick" if tier == "quick" else "thorough"],
@@ -628,7 +788,15 @@ def replay(rec):
     suite, direction, lab, pos = tuple(case["suite"]), case["dir"], case["edit"], tuple(case["pos"])
     suite2 = tuple(case["suite2"]) if case.get("suite2") else None
     large = bool(case.get("large"))
-    if case.get("epochs"):
+    tclass = None
+    if case.get("iv"):
+        spec = tuple(case["iv"])
+        tclass = iv_transport(spec)
+        script, newkeys, packets, sent, stopped, cands = iv_case(direction, suite, spec)
+        enc = b"".join(packets)
+        print("initial IV", iv_bytes(spec, 12).hex(), "(12-byte form); sender sent", len(sent), "messages, then",
+              repr(stopped) if stopped else "the script ended")
+    elif case.get("epochs"):
         script, newkeys, packets, sent, cands = epoch_case(direction, suite, suite2, case["strict"])
         enc = b"".join(packets)
         print("two-epoch stream: NEWKEYS, a0, a1, NEWKEYS, b0, b1; suite after the re-key", suite2,
@@ -636,7 +804,7 @@ def replay(rec):
     else:
         script, newkeys, packets, sent = record(direction, suite, suite2, LARGE_LENGTHS if large else LENGTHS)
         enc = b"".join(packets)
-    if case.get("epochs"):
+    if case.get("epochs") or case.get("iv"):
         pass
     elif large and lab not in ("swap", "drop", "dup"):
         cands = [(l, (p,), d) for l, p, d in E.byte_edits(enc, positions=list(pos))]
@@ -648,11 +816,15 @@ def replay(rec):
         if l == lab and tuple(p) == pos:
             break
     else:
+        if case.get("iv"):
+            print("the sender got out only %d message(s) on this tree: the recorded edit does not exist - not reproduced"
+                  % len(sent))
+            return 0
         print("edit not found")
         return 3
     n_intact, lcp = intact_packets(packets, edited)
     end = case.get("end") or "waits"
-    r = run_edit(direction, script, newkeys, sent, edited, end)
+    r = run_edit(direction, script, newkeys, sent, edited, end, tclass=tclass)
     clause = judge(sent, r, n_intact)
     if clause == "accepted-tampered-packet" and not STRICT_TAMPERED_PACKET:
         clause = None
